@@ -5,22 +5,29 @@ spec/PlanSpace.tla is the oracle: a state machine whose states are the feasible
 
 T  instances inside the property's bound (<= 4 offered tasks in 1-3 task graphs,
    <= 2 workers, <= 2 strategies, horizon <= 12 slots, discretisation 1-3, running
-   occupants, SCHEDULED tasks, task-by-task mode and whole-graph chains) are built
-   as real tasks / Workload / WorkerPools; the real ILPScheduler(goal=max_goodput),
+   occupants, SCHEDULED tasks, task-by-task mode and whole-graph chains; directed
+   ones that need one convention exactly + seeded-random ones) are built as real
+   tasks / Workload / WorkerPools; the real ILPScheduler(goal=max_goodput),
    TetriSchedGurobiScheduler and TetriSchedCPLEXScheduler `schedule()` are called;
-   the (instance, answer) records go to TLC in batches:
+   the (instance, answer) records go to TLC in batches (one JVM per batch):
      ILP        kind "opt": TLC searches the plan space (branch and bound by the
                 CONSTRAINT CanImprove); C14_NoBetterPlan: no complete feasible plan
                 has more goodput than the answer.  The counterexample is a better plan.
      TetriSched kind "max": the state is the answer; C14_Maximal: no offered task can
                 be added at any allowed (worker, strategy, slot).
-   A failing record is re-judged by TLC under the conventions of the pinned model
+   Every record is also judged under the conventions of the pinned model
    (conv.pairSum / unplacedTimed / occupants charged their full runtime / only
-   reward tasks count) to *attribute* it to a cause (stable finding key); it is a
-   violation either way.  Every violation is reproduced: the instance is solved
-   again, the captured Gurobi model is asked about TLC's witness (fix-check).
-M  PlanSpace alone on fixed instances, kind "enum": distinct states = number of
+   reward tasks count): a record that fails under the statement-level conventions
+   is a violation either way; the variant that makes it pass names its cause (a
+   stable finding key per cause), no such variant = a new defect (key = instance).
+   Every violation is reproduced: the instance is solved again and the planner's own
+   captured Gurobi model is asked about TLC's witness (fix the variables, optimise).
+M  PlanSpace alone on fixed instances, kind "enum": number of states = number of
    feasible partial plans (the enumeration is not vacuous).
+E  decision-space equality: on fixed cases and a sample of the records, EVERY
+   syntactic plan is fix-checked on the captured Gurobi model; the feasible set
+   must equal the set of complete plans PlanSpace reaches (pinned-model conventions
+   on the unchanged tree) - the conventions of the spec are the planner's.
 """
 from __future__ import annotations
 
@@ -108,6 +115,12 @@ def directed():
         out.append(case(pol, "tasks", 0, [A], [O(1, A, 6)], [T("g1", 0, 9, [(A, 1)])], disc=3, plan_ahead=6, tag="ts_last_slot_occ"))
         out.append(case(pol, "tasks", 0, [[2, 1]], [O(1, A, 2)], [T("g1", 0, 4, [([2, 0], 2), (AB, 4)]), T("g2", 0, 4, [(A, 2)])], tag="ts_capacity_full"))
         out.append(case(pol, "tasks", 2, [A, B], [], [T("g1", 0, 8, [(A, 3)]), T("g2", 1, 8, [(A, 3), (B, 5)]), T("g3", 2, 6, [(B, 1)])], disc=2, tag="ts_disc2"))
+    # minimal instances of the findings on the pinned tree (one per cause, see FLAGS)
+    for pol in POLICIES:
+        out.append(case(pol, "tasks", 3, [A], [O(1, A, 1, 4)], [T("g1", 3, 8, [(A, 2)])], tag="finding_occFull"))
+    out.append(case("ilp", "tasks", 0, [[2, 0]], [], [T("g1", 0, 6, [(A, 5)]), T("g2", 0, 2, [(A, 1)]), T("g3", 0, 6, [(A, 1)])], tag="finding_pairSum"))
+    out.append(case("ilp", "tasks", 0, [A], [], [T("g1", 0, 0, [(A, 1)]), T("g2", 0, 5, [(A, 1)])], tag="finding_unplacedTimed"))
+    out.append(case("tsg", "graphs", 0, [A], [], [T("g1", 0, 9, [(A, 2)]), T("g1", -1, 3, [(A, 2)], parents=[1])], tag="finding_rewardOnly"))
     out.append(case("tsg", "graphs", 0, [A], [], [T("g1", 0, 9, [(A, 2), (A, 1)]), T("g1", -1, 5, [(A, 2)], parents=[1])], tag="tsg_chain_slowest"))
     out.append(case("tsg", "graphs", 0, [[2, 0]], [], [T("g1", 0, 9, [(A, 2)]), T("g1", -1, 9, [([2, 0], 2)], parents=[1]), T("g2", 0, 6, [(A, 3)])], disc=3, tag="tsg_chain_disc3"))
     return out
@@ -157,7 +170,7 @@ def generate(policy, mode, n, r, max_tasks):
             return sl
 
         def deadline(rt, base):
-            kind = r.choice(["hopeless", "tight", "tight", "mid", "mid", "loose"])
+            kind = r.choice(["hopeless", "tight", "tight", "tight", "mid", "mid", "mid", "loose", "loose"])
             if kind == "hopeless":
                 d = base + rt - r.choice([1, 2])
             elif kind == "tight":
@@ -214,8 +227,9 @@ def generate(policy, mode, n, r, max_tasks):
                 w = r.randint(1, len(caps))
                 after = max([o["full"] for o in occ if o["w"] == w] + [0])
                 tasks[i]["must"] = {"w": w, "s": si + 1, "start": now + after + r.randint(1, 3)}
-                if r.random() < 0.8:  # mostly a previous placement that met the deadline
-                    tasks[i]["deadline"] = max(tasks[i]["deadline"], tasks[i]["must"]["start"] + tasks[i]["strats"][si]["rt"])
+                end = tasks[i]["must"]["start"] + tasks[i]["strats"][si]["rt"]
+                if r.random() < 0.8 and end <= now + 12:  # mostly a previous placement that met the deadline
+                    tasks[i]["deadline"] = max(tasks[i]["deadline"], end)
         disc, pa = 1, -1
         if policy != "ilp":
             disc = r.choice([1, 1, 2, 3])
@@ -683,7 +697,7 @@ def absorb_enum(res, trecs, stats, runs):
         agg.distinct = agg.generated = n
         agg.depth = len(tr["tasks"]) + 1
         agg.coverage = {"Init": (1, 1), "PlaceNext": (n - 1 - _skips(tr, n, k), n - 1 - _skips(tr, n, k)), "Skip": (_skips(tr, n, k), _skips(tr, n, k))}
-        res.add_tlc(f"PlanSpace/{c['tag']} (kind enum, inside the record batch)", agg)
+        res.add_tlc(f"PlanSpace/{c['tag']} (kind enum, inside the record batch; transition counts follow from the tree shape)", agg)
         res.extra["tlc_runs"][-1]["never_taken"] = []
         out.append({"instance": c["tag"], "policy": c["policy"], "feasible_partial_plans": n, "complete_feasible_plans": k})
         if n < 10 or k < 5:
@@ -775,36 +789,44 @@ def _pool_plans(rec, model, sids, horizon):
     return plans, f.SolCount
 
 
+EQ_ID0 = 10**6
+
+
 def eq_prepare(quick, sample=()):
     """Solve the fixed equality cases (and the sampled records) again, keeping the
-    planners' Gurobi models; returns (records, TLC records of kind enum with dump)."""
+    planners' Gurobi models; returns (records, TLC records of kind enum with dump: per
+    case one under the pinned-model conventions and one under the statement-level ones)."""
     cases = ([EQ_CASES[0], EQ_CASES[3]] if quick else EQ_CASES) + list(sample)
     trecs, recs = [], []
-    for i, c in enumerate(cases):
+    for c in cases:
         rec, m = solve_captured(c)
         if "skip" in rec or m is None:
             if c["tag"].startswith("eq_"):
                 raise tlc.TLCMachineryError(f"equality case {c['tag']}: {rec.get('skip', 'no model')}")
             continue
         rec["_model"] = m
+        rec["_eqid"] = EQ_ID0 + 2 * len(recs)
         recs.append(rec)
         flags = tuple(f for f in FLAGS[c["policy"]] if f != "rewardOnly")
-        tr = tlc_record(rec, 10 + i, flags, kind="enum")
-        tr["dump"] = True
-        trecs.append(tr)
-    assert len(trecs) < 90
+        for k, fl in enumerate((flags, ())):
+            tr = tlc_record(rec, rec["_eqid"] + k, fl, kind="enum")
+            tr["dump"] = True
+            trecs.append(tr)
     return recs, trecs
 
 
-def eq_compare(res, recs, trecs, finds):
-    """The set of complete plans PlanSpace reaches under the pinned-model conventions
-    must equal the feasible set of the planner's own model: every syntactic plan is
-    fix-checked on the captured Gurobi model (one TetriSched case is also enumerated
-    through the solution pool)."""
+def eq_compare(res, recs, finds):
+    """The feasible set of the planner's own model (every syntactic plan is fix-checked
+    on the captured Gurobi model; one TetriSched case is also enumerated through the
+    solution pool) must equal the set of complete plans PlanSpace reaches under the
+    pinned-model conventions - on the unchanged tree.  (A tree in which the over-tight
+    constraints are repaired equals the statement-level space instead.)"""
     out = []
-    agg = {"cases": 0, "equal": 0, "syntactic_plans_asked": 0, "feasible_plans": 0, "model_not_asked": 0}
-    for rec, tr in zip(recs, trecs):
-        spec = {_plan_key(p) for c, p in finds.get(tr["id"], []) if c == "plan"}
+    agg = {"cases": 0, "equal_pinned_model_conventions": 0, "equal_statement_level_conventions": 0, "equal_neither": 0,
+           "syntactic_plans_asked": 0, "feasible_plans": 0, "model_not_asked": 0}
+    for rec in recs:
+        pinned = {_plan_key(p) for c, p in finds.get(rec["_eqid"], []) if c == "plan"}
+        stated = {_plan_key(p) for c, p in finds.get(rec["_eqid"] + 1, []) if c == "plan"}
         probe = ModelProbe(rec, rec["_model"], rec["_sids"])
         if probe.note:
             agg["model_not_asked"] += 1
@@ -815,24 +837,29 @@ def eq_compare(res, recs, trecs, finds):
             if probe.ask(list(plan))[0] == "feasible":
                 model.add(_plan_key(plan))
         entry = {
-            "case": rec["tag"], "policy": rec["policy"], "mode": rec["mode"], "syntactic_plans_fix_checked": asked,
-            "plans_in_spec": len(spec), "plans_in_model": len(model), "equal": spec == model,
+            "case": rec["tag"], "policy": rec["policy"], "mode": rec["mode"], "syntactic_plans_fix_checked": asked, "plans_in_model": len(model),
+            "plans_in_spec_pinned_model_conventions": len(pinned), "plans_in_spec_statement_level": len(stated),
+            "equal_pinned": model == pinned, "equal_statement_level": model == stated,
         }
         if rec["tag"] == "eq_tsg_chain":
-            pool, nsol = _pool_plans(rec, rec["_model"], rec["_sids"], tr["conv"]["horizon"] + 12)
+            flags = tuple(f for f in FLAGS[rec["policy"]] if f != "rewardOnly")
+            pool, nsol = _pool_plans(rec, rec["_model"], rec["_sids"], tlc_record(rec, 0, flags)["conv"]["horizon"] + 12)
             entry["pool_solutions"] = nsol
             entry["plans_in_pool"] = len(pool)
-            entry["equal"] = entry["equal"] and pool == spec
+            entry["pool_equals_fix_checked_set"] = pool == model
         agg["cases"] += 1
-        agg["equal"] += entry["equal"]
+        agg["equal_pinned_model_conventions"] += entry["equal_pinned"]
+        agg["equal_statement_level_conventions"] += entry["equal_statement_level"]
         agg["syntactic_plans_asked"] += asked
         agg["feasible_plans"] += len(model)
-        if not entry["equal"]:
+        neither = not entry["equal_pinned"] and not entry["equal_statement_level"]
+        agg["equal_neither"] += neither
+        if neither:
             entry["inst"] = rec["inst"]
-            entry["only_in_spec"] = [list(map(str, x)) for x in sorted(spec - model, key=str)[:5]]
-            entry["only_in_model"] = [list(map(str, x)) for x in sorted(model - spec, key=str)[:5]]
-            res.notes.append(f"decision spaces differ on {rec['tag']} ({rec['policy']}/{rec['mode']}): the pinned-model conventions of PlanSpace are not this planner's (attribution of violations is unreliable)")
-        if rec["tag"].startswith("eq_") or not entry["equal"]:
+            entry["only_in_spec_pinned"] = [list(map(str, x)) for x in sorted(pinned - model, key=str)[:5]]
+            entry["only_in_model"] = [list(map(str, x)) for x in sorted(model - pinned, key=str)[:5]]
+            res.notes.append(f"decision spaces differ on {rec['tag']} ({rec['policy']}/{rec['mode']}): the model of this planner is neither PlanSpace's pinned-model space nor the statement-level space")
+        if rec["tag"].startswith("eq_") or neither:
             out.append(entry)
     res.extra["decision_space_equality"] = {"summary": agg, "cases": out[:12]}
 
@@ -868,7 +895,7 @@ def run(tier: str) -> CheckResult:
     r = rng("c14")
     cases = directed()
     per = {"ilp/tasks": 5, "ilp/graphs": 5, "tsg/tasks": 4, "tsg/graphs": 4, "tsc/tasks": 3} if quick else \
-        {"ilp/tasks": 260, "ilp/graphs": 260, "tsg/tasks": 170, "tsg/graphs": 170, "tsc/tasks": 120}
+        {"ilp/tasks": 520, "ilp/graphs": 520, "tsg/tasks": 340, "tsg/graphs": 340, "tsc/tasks": 240}
     for pm, n in per.items():
         pol, mode = pm.split("/")
         cases += generate(pol, mode, n, r, 3 if quick else 4)
@@ -894,7 +921,7 @@ def run(tier: str) -> CheckResult:
     erecs = enum_records()
     pick = [rec for rec in recs if rec["policy"] in ("ilp", "tsg") and rec["tag"] == "gen" and 20 <= _ncandidates(rec) <= 4000]
     r.shuffle(pick)
-    qrecs, qtrecs = eq_prepare(quick, pick[: (6 if quick else 80)])
+    qrecs, qtrecs = eq_prepare(quick, pick[: (6 if quick else 150)])
     res.extra["equality_prepare_wall_s"] = round(time.time() - t0, 1)
     variants = []
     for rec in recs:
@@ -909,7 +936,7 @@ def run(tier: str) -> CheckResult:
     _absorb(res, "PlanSpace/records (statement-level conventions + attribution variants)", runs, time.time() - t0)
     absorb_enum(res, erecs, stats, runs)
     t0 = time.time()
-    eq_compare(res, qrecs, qtrecs, finds)
+    eq_compare(res, qrecs, finds)
     res.extra["equality_compare_wall_s"] = round(time.time() - t0, 1)
     failing = [rec for rec in recs if any(c in ("better", "addable") for c, _ in finds.get(rec["id"] * 100, []))]
     outside = [rec for rec in recs if any(c == "answer_outside_space" for c, _ in finds.get(rec["id"] * 100, []))
